@@ -489,6 +489,21 @@ VALID_CORPUS = [
     "module ifb\n implicit none\n interface\n  subroutine s(a)\n  end subroutine s\n  function f(i)\n  end function f\n end interface\nend module ifb\n",
 ]
 
+# programs with seeded defects and the exact set of error-severity diagnostics expected: [(message, 0-based line)]
+EXACT_CORPUS = [
+    # accessibility of a type differs between sibling scopes of one file (both orders)
+    ("module shapes\n implicit none\n type :: vec\n  real :: x\n end type vec\nend module shapes\n"
+     "subroutine has_access()\n use shapes\n implicit none\n type(vec) :: v\nend subroutine has_access\n"
+     "subroutine no_access()\n implicit none\n type(vec) :: w\nend subroutine no_access\n", [('Object "vec" not found in scope', 13)]),
+    ("module shapes\n implicit none\n type :: vec\n  real :: x\n end type vec\nend module shapes\n"
+     "subroutine no_access()\n implicit none\n type(vec) :: w\nend subroutine no_access\n"
+     "subroutine has_access()\n use shapes\n implicit none\n type(vec) :: v\nend subroutine has_access\n", [('Object "vec" not found in scope', 8)]),
+    # dummy arguments spelled with capitals in the SUBROUTINE statement: a valid program, and one with a seeded INTENT defect
+    ("subroutine Solve(A, b, N)\n implicit none\n integer, intent(in) :: N\n real, intent(in) :: A(N)\n real, intent(out) :: B(n)\n b = a\nend subroutine Solve\n", []),
+    ("SUBROUTINE SOLVE(A, B, N)\n IMPLICIT NONE\n INTEGER, INTENT(IN) :: N\n REAL, INTENT(IN) :: A(N)\n REAL, INTENT(OUT) :: B(N)\n REAL, INTENT(IN) :: GHOST\n B = A\nEND SUBROUTINE SOLVE\n",
+     [('Variable "GHOST" with INTENT keyword not found in argument list', 5)]),
+]
+
 KNOWN_UNREPORTED = [
     ("C07:missing-type-not-accessible-private",
      "module types_mod\n implicit none\n private\n type :: counter\n  integer :: n\n end type counter\nend module types_mod\n"
@@ -509,6 +524,13 @@ def check_corpus(ctx):
         if errs:
             ctx.report("C07:error-on-valid", "an error-severity diagnostic on a valid program: %s (line %d)" % (errs[0][0], errs[0][2]),
                        {"kind": "counterexample", "input": {"text": text}, "implementation": diags})
+    for i, (text, want) in enumerate(EXACT_CORPUS):
+        diags = diagnostics_of(text)
+        ctx.count(("exact-corpus", i), True)
+        got = sorted((d[0], d[2]) for d in diags if d[1] == 1)
+        if got != sorted(want):
+            ctx.report("C07:exact-corpus", "error diagnostics differ from the expected set: got %s, expected %s" % (got[:4], sorted(want)[:4]),
+                       {"kind": "counterexample", "input": {"text": text}, "implementation": diags, "oracle": sorted(want)})
     # documented defect classes that the unmodified tree does not report: (signature, text, message, line)
     for sig, text, msg, line in KNOWN_UNREPORTED:
         diags = diagnostics_of(text)
